@@ -1,6 +1,6 @@
 (* Proofs/C08_RelCanon.v - the inverse law on arbitrary records: a computable recogniser of the explicit
    form of C08_RelLaw (hier_canon: the record IS  pre "/" seg "/" ... "/" last [?q][#f]  with the stored
-   offsets; rel_base_ok: "scheme://" in front and not a file URL; rel_target_ok: the target's segments,
+   offsets; rel_base_ok: "scheme://" or just "scheme:" in front and not a file URL; rel_target_ok: the target's segments,
    query and fragment are canonical for the base's scheme type; main_eqb: the seven stored values in
    front of the path agree). *)
 From RU Require Import Base.Prelude Base.Utf8 Base.Utf8Facts Model.AsciiSet Gen.Tables Model.PercentEncoding
@@ -51,7 +51,8 @@ Definition hier_canon (u : url) : bool :=
   end.
 
 Definition rel_base_ok (b : url) : bool :=
-  (scheme_end b <=? nlen (u_pre b)) && starts_with s_css (nskipn (scheme_end b) (u_pre b))
+  (scheme_end b <=? nlen (u_pre b))
+  && (starts_with s_css (nskipn (scheme_end b) (u_pre b)) || list_eqb (nskipn (scheme_end b) (u_pre b)) [58])
   && negb (st_is_file (b_st b)).
 
 Definition opt_cleanb (S : aset) (o : option (list N)) : bool :=
@@ -97,6 +98,16 @@ Proof.
   - apply nlen_nfirstn. exact Hle.
 Qed.
 
+Lemma front_pre_of se pre : se <= nlen pre ->
+  starts_with s_css (nskipn se pre) || list_eqb (nskipn se pre) [58] = true -> front_pre se pre.
+Proof.
+  intros Hle H. apply orb_true_iff in H. destruct H as [H|H].
+  - left. apply front_auth_of; assumption.
+  - right. apply list_eqb_spec in H. exists (nfirstn se pre). split.
+    + rewrite <- H. symmetry. apply nfirstn_nskipn.
+    + apply nlen_nfirstn. exact Hle.
+Qed.
+
 Section Canon.
 Variables (dbg : bool) (hp hpo : list N -> result host) (hd : host -> list N).
 
@@ -125,7 +136,7 @@ Proof.
   rewrite M1, M2, M3, M4, M5, M6, <- Epre in Hct. clear M1 M2 M3 M4 M5 M6 M7 Epre.
   unfold rel_base_ok in Hbase.
   apply andb_true_iff in Hbase. destruct Hbase as [Hbase Hnf]. apply andb_true_iff in Hbase. destruct Hbase as [Hle Hss].
-  apply negb_true_iff in Hnf. apply N.leb_le in Hle. pose proof (front_auth_of (scheme_end b) (u_pre b) Hle Hss) as Hfa. clear Hle Hss.
+  apply negb_true_iff in Hnf. apply N.leb_le in Hle. pose proof (front_pre_of (scheme_end b) (u_pre b) Hle Hss) as Hfa. clear Hle Hss.
   set (st := b_st b) in *.
   assert (st = scheme_type_of (nfirstn (scheme_end b) (u_pre b))) as Est.
   { unfold st, b_st. rewrite Hcb at 1. rewrite hier_b_scheme by exact Hfa. reflexivity. }
@@ -177,7 +188,10 @@ Lemma rel_canon_inhabited :
   /\ rel_canon_on "non-spec://h/a/b/c/d" "non-spec://h/a/x%20y/z\w?q=\#f" = true
   /\ mr_answer "non-spec://h/a/b/c/d" "non-spec://h/a/x%20y/z\w?q=\#f" "../../x%20y/z\w?q=\#f" = true
   /\ rel_canon_on "http://h/a/b" "http://h/a/b#f" = true
-  /\ rel_canon_on "http://h/a/b#x" "http://h/a/b" = true.
+  /\ rel_canon_on "http://h/a/b#x" "http://h/a/b" = true
+  /\ rel_canon_on "a:/x/y" "a:/x/z#f" = true /\ mr_answer "a:/x/y" "a:/x/z#f" "z#f" = true
+  /\ rel_canon_on "web+demo:/a/b/c?bq" "web+demo:/a/d/" = true /\ mr_answer "web+demo:/a/b/c?bq" "web+demo:/a/d/" "../d/" = true
+  /\ rel_canon_on "a:/x" "a:/" = true /\ mr_answer "a:/x" "a:/" "/" = true.
 Proof. vm_compute. repeat split. Qed.
 
 (* the explicit form: base http://h/a/b/f, target http://h/a/c/g?q *)
@@ -191,6 +205,6 @@ Lemma rel_ok_inhabited :
 Proof.
   split; [|vm_compute; repeat split].
   constructor; try (vm_compute; reflexivity); try exact I.
-  - exists (B "http"), (B "h"). split; reflexivity.
+  - left. exists (B "http"), (B "h"). split; reflexivity.
   - vm_compute. discriminate.
 Qed.
